@@ -204,7 +204,7 @@ def resource_block_hostile(rng):
     return c
 
 
-def wells_block(rng, impedance=None):
+def wells_block(rng, impedance=None, laterals=None):
     c = [['Number of Production Wells', draw_small_int(rng, 1, 6)],
          ['Number of Injection Wells', draw_small_int(rng, 1, 6)],
          ['Production Well Diameter', _round(rng.uniform(5, 12), 4)],
@@ -225,6 +225,15 @@ def wells_block(rng, impedance=None):
     c += [['Reservoir Heat Capacity', _round(rng.uniform(800, 1200), 4)],
           ['Reservoir Density', _round(rng.uniform(2400, 3100), 4)],
           ['Reservoir Thermal Conductivity', _round(rng.uniform(2, 4), 3)]]
+    if laterals is None:
+        laterals = rng.random() < 0.15
+    if laterals:
+        # multilateral wells on the standard (non closed-loop) wellbore model: lateral drilling cost enters the wellfield cost
+        c += [['Well Geometry Configuration', rng.choice([1, 2, 3, 4, 4])],
+              ['Has Nonvertical Section', 'True'],
+              ['Multilaterals Cased', rng.choice(['True', 'False'])],
+              ['Number of Multilateral Sections', draw_small_int(rng, 1, 5)],
+              ['Nonvertical Length per Multilateral Section', _round(rng.uniform(300, 2500), 2)]]
     return c
 
 
